@@ -57,6 +57,8 @@ int main(int argc, char** argv) {
   add_module_ops(L.ops, {4, 16, 8192});
   const size_t nmod_end = L.ops.size();
   add_table_ops(L.ops);
+  const size_t ntab_end = L.ops.size();
+  add_ctor_ops(L.ops);
   const size_t nmain = L.ops.size();
   add_module_ops(L.ops, {4, 16, 8192}, 1);  // the same entry points on different data (second thread of same-call pairs)
   std::map<int, int> twin;
@@ -119,8 +121,10 @@ int main(int argc, char** argv) {
     // S2: warmed *_simple calls, equal and different dimensions / parameters
     for (size_t a = 0; a < nsimple; ++a) for (size_t b = a; b < nsimple; ++b) if (L.ops[a].family == L.ops[b].family && small_dim(a) && small_dim(b)) scen.push_back({"S2 warmed simple pair", {(int)a, (int)b}});
     // S3: table-based kernels on one shared table
-    for (size_t a = nmod_end; a < nmain; ++a) { if (!small_dim(a) || (a + 1 < nmain && !small_dim(a + 1))) continue; scen.push_back({"S3 table pair", {(int)a, (int)a}}); if (a + 1 < L.ops.size()) scen.push_back({"S3 table pair", {(int)a, (int)a + 1}}); }
+    for (size_t a = nmod_end; a < ntab_end; ++a) { if (!small_dim(a) || (a + 1 < nmain && !small_dim(a + 1))) continue; scen.push_back({"S3 table pair", {(int)a, (int)a}}); if (a + 1 < L.ops.size()) scen.push_back({"S3 table pair", {(int)a, (int)a + 1}}); }
   }
+  // S4: two threads creating, using and deleting their own objects at the same time
+  for (size_t a = ntab_end; a < nmain; ++a) for (size_t b = a; b < nmain; ++b) if (L.ops[a].name.find("2048") == std::string::npos && L.ops[b].name.find("2048") == std::string::npos && L.ops[a].name.find("4096") == std::string::npos && L.ops[b].name.find("4096") == std::string::npos) scen.push_back({"S4 constructor pair", {(int)a, (int)b}});
   const int bound = th ? 3 : 2;
   ctx.parallel(scen.size(), [&](uint64_t si) {
     const Scenario& sc = scen[si];
